@@ -334,6 +334,26 @@ def r_global_search(rep, prog):
                 for r in [x for x in T.walk(alt) if x[0] == "bin" and x[1] == "Rem"]:
                     offs |= _offset_forms(r[2])
         perm = offs in ({"+i/2", "-ceil(i/2)"}, {"+i"}, {"-i"})
+        if offs == {"+i/2", "-ceil(i/2)"}:
+            # the two forms alternate: selected by i.is_multiple_of(2) (or i % 2 == 0)
+            sel_ok = False
+            for s_ in blocks:
+                tt = b.term(s_)
+                if tt["k"] != "switch":
+                    continue
+                c = tm.operand(tt["discr"])
+                if c[0] == "call" and c[1] == "usize::is_multiple_of" and T.const_val(c[2][1]) == 2 and any(
+                        y[0] == "call" and y[1].endswith("::next") for y in T.walk(c[2][0])):
+                    sel_ok = True
+                cm = lib.normalize_cmp(c) if c[0] == "bin" else None
+                if cm and cm[1] in ("eq", "ne"):
+                    for side in (cm[0], cm[2]):
+                        sd = T.strip_casts(side)
+                        if sd[0] == "bin" and sd[1] in ("Rem", "BitAnd") and T.const_val(sd[3]) in (2, 1):
+                            sel_ok = True
+            perm = sel_ok
+            if not sel_ok:
+                offs = set(offs) | {"(not alternating on i % 2)"}
         rep.check(perm, rule, "%s|permutation" % fn, "offsets %s visit every tree once" % sorted(offs),
                   "the visiting offsets are %s, not {+i/2 (even i), -ceil(i/2) (odd i)}: some trees are visited twice and others never, "
                   "so a tree with free frames (or the tree a change is looking for) can be missed" % sorted(offs), b.term(h)["span"])
@@ -384,7 +404,8 @@ def r_global_search(rep, prog):
                 c = tm.operand(b.term(s)["discr"])
                 if c[0] == "discr" and any(x[0] == "call" and x[1].endswith("ops::function::Fn::call") for x in T.walk(c)):
                     ok_edge = True
-            ok_edge = ok_edge or early_exit_has_result(b, prog, d, [(bi, t) for bi, t in acc_calls if _is_access(tm, t)])
+            # ... and the result is known to be Ok or an error other than Memory (a Memory result must continue the search)
+            ok_edge = early_exit_has_result(b, prog, d, [(bi, t) for bi, t in acc_calls if _is_access(tm, t)])
             rep.check(ok_edge, rule, "%s|early-exit" % fn, "early exit only on a non-Memory access result",
                       "the search loop can be left early at bb%d -> bb%d without an access result" % (a, d), b.term(a).get("span"))
 
@@ -584,3 +605,6 @@ def run(rep, programs):
     # exhaustion is reported as Error::Memory, the error the fall-through arms of the search continue on
     from props import c08
     c08.r_err_kinds(rep, prog)
+    # the candidates the global search cached are all tried until one gives a non-Memory result
+    from props import c16
+    c16.r_best_first(rep, prog)
